@@ -738,6 +738,14 @@ func (r *Replica) Restore(ctx context.Context, opt RestoreOptions) (err error) {
 	pr, pw := io.Pipe()
 
 	go func() {
+		// A malformed input (e.g. a file cut a few bytes after its page block) makes
+		// ltx.Decoder.Close panic; without this the whole process dies and
+		// <output>.tmp is left behind. Turn it into an ordinary restore error.
+		defer func() {
+			if p := recover(); p != nil {
+				_ = pw.CloseWithError(fmt.Errorf("ltx compactor panic: %v", p))
+			}
+		}()
 		c, err := ltx.NewCompactor(pw, rdrs)
 		if err != nil {
 			pw.CloseWithError(fmt.Errorf("new ltx compactor: %w", err))
